@@ -329,10 +329,10 @@ func scnDirs(rep *Report, rng *Rng, tier string, outdir string) {
 	if tier == "thorough" {
 		n = 20000
 	}
-	alphabet := []string{"", "a", "b", "ab", "a ", "é", "A", "aa"}
+	alphabet := []string{"", "a", "b", "ab", "a ", "é", "A", "aa", "0", "1", "2", "-1", "07"} // names that read as list indexes included
 	kinds := []string{"dir", "dir", "nodata", "symlink", "metadata", "garbage"}
 	cf := NewCaseFile(rep, outdir, "cases_dirs", "UV.Corr.Dirs", "mismatches_dirs", 100)
-	rep.P("C15").Rule = "random dag-pb link lists (0..12 links; names absent/empty/duplicated from an 8-symbol alphabet; any order or codec-sorted) reified as plain directory / generic link map; distinct = distinct (link list, kind); non-trivial = at least 2 links"
+	rep.P("C15").Rule = "random dag-pb link lists (0..12 links; names absent/empty/duplicated from a 13-symbol alphabet incl. integer-looking ones; any order or codec-sorted) reified as plain directory / generic link map; distinct = distinct (link list, kind); non-trivial = at least 2 links"
 	nLong := 16
 	for i := 0; i < n+nLong; i++ {
 		in := DirsInput{Kind: kinds[rng.Intn(len(kinds))], Encoded: rng.Intn(3) == 0}
